@@ -1,9 +1,11 @@
 import ScionVerif.Lemmas.SnapScmp
+import ScionVerif.Lemmas.ScmpSubscribers
 /-!
 # C14 — SCMP handling: bounded quoting, valid checksums, faithful echo, no error loops
 
 Models: `Model/Scmp.lean` (construction: `encodeError`, `errorPacket`, `echoMsg`, `checksum`) and `Model/ScmpHandler.lean`
-(handling: `echoHandle`, `errorHandle`, the socket loop `recvOne`/`recvAll`, pocketscion's `simMaybeReply`/`simHandleScmp`).
+(handling: `echoHandle`, `errorHandle`, the socket loop `recvOne`/`recvAll`, pocketscion's `simMaybeReply`/`simHandleScmp`),
+`Model/ScmpSubscribers.lean` (the weakly held receiver list `Subscribers` that `ScmpErrorHandler` notifies).
 Every statement is for **all** offending packets / header sizes / kinds / received packets / packet sequences; path reversal
 (`DpPath::try_reverse`, property C12) is the parameter `rev`.  Sizes, types and the switches that say whether the code verifies
 checksums on receive and refuses to answer unknown error types are generated from the Rust sources.
@@ -378,6 +380,47 @@ theorem scmp_delivers_nothing (rev : Rev) (n : Nat) (hs : List Handler) (p : Pkt
     (recvOne rev n hs p).delivered = none := by
   rw [recvOne_delivered, h]; rfl
 
+/-! ## the receiver list (`Subscribers`): every arriving SCMP error is reported exactly once to every receiver that is
+registered and alive at that moment, and to no dropped one – for every history of registrations, drops and errors -/
+
+/-- **receivers_notified_exactly_once**: after *any* history `pre` of {register a receiver (explicitly or by binding a
+    socket), drop receiver `k`, SCMP error arrives}, the error arriving next calls every receiver that is alive then
+    exactly once and no other receiver (count 0 for dropped and for never registered identities) -/
+theorem receivers_notified_exactly_once (pre : List SubsOp) (id : Nat) :
+    (subsReach {} pre).notified.count id = if id ∈ (subsReach {} pre).alive then 1 else 0 :=
+  notified_count _ (subsInv_reach _ _ subsInv_init) id
+
+/-- the notification lists a whole history produces are exactly those: the error following the prefix `pre` is
+    reported to `(subsReach {} pre).notified`, whatever follows -/
+theorem receivers_run_error (pre post : List SubsOp) :
+    subsRun {} (pre ++ .error :: post)
+      = subsRun {} pre ++ (subsReach {} pre).notified :: subsRun (subsReach {} pre) post := by
+  suffices h : ∀ w : SubsState, subsRun w (pre ++ .error :: post)
+      = subsRun w pre ++ (subsReach w pre).notified :: subsRun (subsReach w pre) post from h {}
+  induction pre with
+  | nil => intro w; rfl
+  | cons op pre ih =>
+    intro w
+    cases op <;> simp [subsRun, subsReach, subsStep, ih]
+
+/-- who is "registered and alive": the receiver registered after `pre` (it gets the identity `next`) is alive for as
+    long as its owner does not drop it … -/
+theorem receiver_alive_until_dropped (pre post : List SubsOp) (h : SubsOp.drop (subsReach {} pre).next ∉ post) :
+    (subsReach {} pre).next ∈ (subsReach {} (pre ++ .register :: post)).alive := by
+  rw [subsReach_append]
+  exact stays_alive _ post _ (by simp [subsStep]) h
+
+/-- … and once dropped it is never alive again (identities are not reused), hence never notified again -/
+theorem dropped_receiver_never_notified (pre post : List SubsOp) (id : Nat) (h : id < (subsReach {} pre).next) :
+    id ∉ (subsReach {} (pre ++ .drop id :: post)).alive ∧ id ∉ (subsReach {} (pre ++ .drop id :: post)).notified := by
+  have hd : id ∉ (subsReach {} (pre ++ .drop id :: post)).alive := by
+    rw [subsReach_append]
+    exact stays_dead _ post id (by simp [subsStep]) (by simpa [subsStep] using h)
+  refine ⟨hd, ?_⟩
+  have := receivers_notified_exactly_once (pre ++ .drop id :: post) id
+  rw [if_neg hd] at this
+  exact List.count_eq_zero.mp this
+
 /-! ## non-vacuity -/
 
 /-- an echo request from 10.0.0.2 to 10.0.0.1 (id 7, seq 9, data "hi"), empty path, valid checksum -/
@@ -398,5 +441,12 @@ example : ∀ x ∈ [Handler.error, Handler.echo, Handler.echo], x.builtin = tru
 example : AddrHdr.hostsOk echoReqPkt.addr := ⟨by decide, by decide, by decide, by decide⟩
 example : (asScmp { echoReqPkt with payload := encodeError (.destUnreachable 4) [1, 2, 3] echoReqPkt.addr 36 }).map Msg.isKnownError = some true := by
   decide
+
+/-- three receivers, the first is dropped, an error arrives: the other two are told (the history the seeded
+    `swap_remove` change gets wrong), and after a fourth registration the dead entry is gone -/
+example : subsRun {} [.register, .register, .register, .error, .drop 0, .error, .register, .error] = [[0, 1, 2], [1, 2], [1, 2, 3]] := by decide
+example : (subsReach {} [.register, .register, .register, .drop 0, .register]).slots = [1, 2, 3] := by decide
+example : SubsOp.drop (subsReach {} [.register]).next ∉ [SubsOp.error, .drop 0] := by decide
+example : (0 : Nat) < (subsReach {} [.register]).next := by decide
 
 end ScionVerif.Scmp
